@@ -178,38 +178,48 @@ def link (r : Ring) (s : Nat) (e : Ex) (indexExists : Bool) (ins : Nat) : Ring :
     let r := ((r.setPrev ni (some ins)).setNext ni nx).setNext ins (some ni)
     match nx with | some n => r.setPrev n (some ni) | none => r
 
+/-- "If we insert an out-of-order exemplar, we preemptively find the insertion index":
+    `(outOfOrder, insertionIndex)`; both keep their zero values when the series is new. -/
+def oooCheck (r : Ring) (idx : Option IdxEntry) (e : Ex) : Bool × Nat :=
+  match idx with
+  | some ie =>
+    if (r.getO ie.oldest).ex.ts ≤ e.ts ∧ e.ts < (r.getO ie.newest).ex.ts then (true, findIns r e.ts ie)
+    else (false, 0)
+  | none => (false, 0)
+
+/-- "Remove entries if the buffer is full": returns the ring, the updated `indexExists` and the
+    (possibly recomputed) insertion index. -/
+def evict (r : Ring) (s : Nat) (e : Ex) (indexExists outOfOrder : Bool) (ins : Nat) : Ring × Bool × Nat :=
+  let ni := r.nextIndex
+  match (r.getN ni).ref with
+  | none => (r, indexExists, ins)
+  | some pr =>
+    if (removeEx r ni).2 then
+      if pr = s then ((removeEx r ni).1, false, ins) else ((removeEx r ni).1.setIndex pr none, indexExists, ins)
+    else if outOfOrder ∧ ins = ni ∧ pr = s then
+      ((removeEx r ni).1, indexExists,
+        findIns (removeEx r ni).1 e.ts (((removeEx r ni).1.index s).getD ⟨some 0, some 0⟩))
+    else ((removeEx r ni).1, indexExists, ins)
+
+/-- The part of `AddExemplar` after validation: create the index entry if needed, evict, write the
+    slot at `nextIndex`, link it, advance `nextIndex`. -/
+def store (r : Ring) (s : Nat) (e : Ex) (indexExists outOfOrder : Bool) (ins : Nat) : Ring :=
+  let r0 := if indexExists then r else r.setIndex s (some ⟨some 0, some 0⟩)
+  let st := evict r0 s e indexExists outOfOrder ins
+  let r1 := (st.1.setEx r.nextIndex e).setRef r.nextIndex (some s)
+  let r2 := link r1 s e st.2.1 st.2.2
+  { r2 with nextIndex := (r.nextIndex + 1) % r2.exs.length }
+
 /-- `AddExemplar(l, e)` for the series with id `s`. -/
 def add (r : Ring) (s : Nat) (e : Ex) : Ring × AddRes :=
   if r.exs.length = 0 then (r, .err .disabled) else
-  let idx := r.index s
-  match validate r idx e with
+  match validate r (r.index s) e with
   | some .dup => (r, .noop)
   | some err => (r, .err err)
   | none =>
-    let indexExists := idx.isSome
-    let oooIns : Bool × Nat := match idx with
-      | some ie =>
-        if (r.getO ie.oldest).ex.ts ≤ e.ts ∧ e.ts < (r.getO ie.newest).ex.ts then (true, findIns r e.ts ie)
-        else (false, 0)
-      | none => (false, 0)
-    let outOfOrder := oooIns.1
-    let ins := oooIns.2
-    if outOfOrder ∧ (r.getN ins).ex.ts = e.ts then (r, .noop) else
-    let r := if indexExists then r else r.setIndex s (some ⟨some 0, some 0⟩)
-    let ni := r.nextIndex
-    let st : Ring × Bool × Nat :=
-      match (r.getN ni).ref with
-      | none => (r, indexExists, ins)
-      | some pr =>
-        let (r', emptied) := removeEx r ni
-        if emptied then
-          if pr = s then (r', false, ins) else (r'.setIndex pr none, indexExists, ins)
-        else if outOfOrder ∧ ins = ni ∧ pr = s then
-          (r', indexExists, findIns r' e.ts ((r'.index s).getD ⟨some 0, some 0⟩))
-        else (r', indexExists, ins)
-    let r := (st.1.setEx ni e).setRef ni (some s)
-    let r := link r s e st.2.1 st.2.2
-    ({ r with nextIndex := (ni + 1) % r.exs.length }, .stored)
+    let oi := oooCheck r (r.index s) e
+    if oi.1 = true ∧ (r.getN oi.2).ex.ts = e.ts then (r, .noop)
+    else (store r s e (r.index s).isSome oi.1 oi.2, .stored)
 
 /-- `ValidateExemplar(l, e)`. -/
 def validateOp (r : Ring) (s : Nat) (e : Ex) : Option Err := validate r (r.index s) e
